@@ -273,7 +273,12 @@ PROFILE_ALIASES = {"kk": "kk", "tp": "cbms"}
 def strat_key(tier):
     return st.fixed_dictionaries(
         {
-            "notes": G.rows_spec(tier, 21, 108, zero="some", sizes=[3, 8, 12, 24, 60, 300]),
+            # two thirds of the cases leave room for an octave shift in both directions
+            "notes": st.one_of(
+                G.rows_spec(tier, 21, 108, zero="some", sizes=[3, 8, 12, 24, 60, 300]),
+                G.rows_spec(tier, 36, 96, zero="some", sizes=[3, 8, 12, 24, 60, 300]),
+                G.rows_spec(tier, 36, 96, zero="some", sizes=[3, 8, 12, 24, 60, 300]),
+            ),
             "profile": st.sampled_from(PROFILE_OPTIONS * 3 + sorted(PROFILE_ALIASES)),
             "octaves": st.sampled_from([-3, -2, -1, 1, 2, 3]),
             "semitones": st.integers(1, 11),
@@ -507,6 +512,14 @@ def oracle_midi(spec):
                         break
                 if len(set(tuple(map(tuple, ks)) for ks in keysigs)) > 1:
                     o.add("import-estimated-key-differs-between-parts", key_signatures=keysigs[:4], **flags)
+                # it is the key of the file's notes (tick durations, default profiles), judged away from ties
+                w = [float(sum(x[1] for x in notes if x[2] % 12 == pc)) for pc in range(12)]
+                best, gap = K.best_and_gap(w, "kk")
+                if best is not None and gap > 1e-9 and keysigs and len(keysigs[0]) == 1:
+                    exp = (K.MAJOR_NAMES if best[1] == "major" else K.MINOR_NAMES)[best[0]]
+                    if keysigs[0][0][1] != exp:
+                        o.add("import-estimated-key-not-best-correlated", got=keysigs[0][0][1], expected=exp, gap=gap, **flags)
+                    o.cls("import-estimated-key-judged")
     return o
 
 
